@@ -110,6 +110,8 @@ type replayFile struct {
 	Hang      bool            `json:"hang,omitempty"`
 	Panic     string          `json:"panic,omitempty"`
 	Summary   string          `json:"summary"`
+	Note      string          `json:"note,omitempty"`
+	Checks    []string        `json:"checks,omitempty"`
 }
 
 type cfgJSON struct {
@@ -333,6 +335,56 @@ func (c *BehavCheck) Run() int {
 			fmt.Printf("  %s\n  config: %s\n  behaviour: %s\n", v.Error(), r.cfg, truncate(r.b.Summary(), 600))
 		}
 	}
+	// regression witnesses of repaired defects: must pass on the repaired tree, are reported again if the defect returns
+	wfiles, _ := filepath.Glob(filepath.Join(VerifDir, "findings", "*.json"))
+	sort.Strings(wfiles)
+	witnesses := 0
+	for _, wf := range wfiles {
+		bts, err := os.ReadFile(wf)
+		if err != nil {
+			continue
+		}
+		var rf replayFile
+		if json.Unmarshal(bts, &rf) != nil {
+			continue
+		}
+		mine := false
+		for _, id := range rf.Checks {
+			mine = mine || id == c.ID
+		}
+		if !mine {
+			continue
+		}
+		wb, err := model.ParseBehaviour(string(rf.Behaviour))
+		if err != nil {
+			return fail(2, "INCONCLUSIVE: witness "+wf+": "+err.Error())
+		}
+		wcfg := exec.Config{Cache: rf.Config.Cache, Flush: rf.Config.Flush, Sync: rf.Config.Sync, Backend: rf.Config.Backend, IVCall: rf.Config.IVCall,
+			Compress: rf.Config.Compress, Pal: palette.New(rf.Config.Palette, rf.Config.K, rf.Config.PalSeed)}
+		if c.Configure != nil {
+			c.Configure(rand.New(rand.NewSource(1)), &wcfg)
+		}
+		out, st := c.runOne(wb, wcfg, rf.Config.ExecSeed)
+		witnesses++
+		steps += st.Steps
+		observations += st.Observations
+		if out.Violation != nil || out.Hang || out.Panic != "" {
+			msg := "hang/panic"
+			if out.Violation != nil {
+				msg = out.Violation.Error()
+			}
+			fid := ""
+			if c.Classify != nil && out.Violation != nil {
+				fid = c.Classify(out.Violation, wb, wcfg)
+			}
+			if f, ok := known[fid]; ok && fid != "" && f.Status == "known" {
+				continue
+			}
+			fmt.Printf("  regression witness %s fails again: %s\n", wf, msg)
+			violations = append(violations, fmt.Sprintf("VIOLATION property=%s replay=%s", c.ID, wf))
+		}
+	}
+	ev.Coverage["regression_witnesses_replayed"] = witnesses
 	distinct := map[string]bool{}
 	for _, b := range behs {
 		for _, s := range b.Steps {
